@@ -224,7 +224,7 @@ def run(ctx):
   thorough = ctx.tier == 'thorough'
   for _ in range(30 if not thorough else 300):
     S.check_shared(ctx, S.shared_case(ctx.rng), 'C01')
-  n = 600 if not thorough else 9000
+  n = 900 if not thorough else 9000
   done = 0
   sample_src = None
   while done < n:
